@@ -187,6 +187,9 @@ class _AdbIOManagerAsync(object):
         self._packet_store = _AdbPacketStore()
         self._transport = transport
 
+        # ``(arg0, arg1)`` pairs whose ``b'CLSE'`` packet was read by another stream's reader and was not kept by the packet store
+        self._orphaned_clse = set()
+
         self._store_lock = Lock()
         self._transport_lock = Lock()
 
@@ -199,6 +202,7 @@ class _AdbIOManagerAsync(object):
 
             async with self._store_lock:
                 self._packet_store.clear_all()
+                self._orphaned_clse.clear()
 
     async def connect(self, banner, rsa_keys, auth_timeout_s, auth_callback, adb_info):
         """Establish an ADB connection to the device.
@@ -254,6 +258,7 @@ class _AdbIOManagerAsync(object):
             async with self._store_lock:
                 # We can release this lock because packets are only added to the store when the transport lock is held
                 self._packet_store.clear_all()
+                self._orphaned_clse.clear()
 
             # 1. Use the transport to establish a connection
             await self._transport.connect(adb_info.transport_timeout_s)
@@ -360,6 +365,10 @@ class _AdbIOManagerAsync(object):
 
                 arg0_arg1 = self._packet_store.find(adb_info.remote_id, adb_info.local_id) if not allow_zeros else self._packet_store.find_allow_zeros(adb_info.remote_id, adb_info.local_id)
 
+            orphaned_clse = self._get_orphaned_clse(expected_cmds, adb_info, allow_zeros)
+            if orphaned_clse:
+                return orphaned_clse
+
         # Start the timer
         start = time.time()
 
@@ -376,6 +385,10 @@ class _AdbIOManagerAsync(object):
 
                         arg0_arg1 = self._packet_store.find(adb_info.remote_id, adb_info.local_id) if not allow_zeros else self._packet_store.find_allow_zeros(adb_info.remote_id, adb_info.local_id)
 
+                    orphaned_clse = self._get_orphaned_clse(expected_cmds, adb_info, allow_zeros)
+                    if orphaned_clse:
+                        return orphaned_clse
+
                 # Read from the device
                 cmd, arg0, arg1, data = await self._read_packet_from_device(adb_info)
 
@@ -383,6 +396,10 @@ class _AdbIOManagerAsync(object):
                     # The packet is not a match -> put it in the store
                     async with self._store_lock:
                         self._packet_store.put(arg0, arg1, cmd, data)
+
+                        # The store does not create an entry for a ``b'CLSE'`` packet; remember it so that its stream still gets closed
+                        if cmd == constants.CLSE and (arg0, arg1) not in self._packet_store:
+                            self._orphaned_clse.add((arg0, arg1))
 
                 else:
                     # The packet is a match for this `(adb_info.local_id, adb_info.remote_id)` pair
@@ -401,6 +418,35 @@ class _AdbIOManagerAsync(object):
 
         # Timeout
         raise exceptions.AdbTimeoutError("Never got one of the expected responses: {} (transport_timeout_s = {}, read_timeout_s = {})".format(expected_cmds, adb_info.transport_timeout_s, adb_info.read_timeout_s))
+
+    def _get_orphaned_clse(self, expected_cmds, adb_info, allow_zeros):
+        """Get the ``b'CLSE'`` packet of this stream if it was read (and not stored) while another stream was reading.
+
+        This must be called with ``self._store_lock`` held.
+
+        Parameters
+        ----------
+        expected_cmds : list[bytes]
+            The commands that the caller is waiting for
+        adb_info : _AdbTransactionInfo
+            Info and settings for this ADB transaction
+        allow_zeros : bool
+            Whether to allow the received ``arg0`` and ``arg1`` values to match with 0, in addition to ``adb_info.remote_id`` and ``adb_info.local_id``, respectively
+
+        Returns
+        -------
+        tuple, None
+            ``(b'CLSE', arg0, arg1, b'')`` if this stream was closed and the caller expects a ``b'CLSE'`` packet; otherwise, ``None``
+
+        """
+        for arg0, arg1 in self._orphaned_clse:
+            if adb_info.args_match(arg0, arg1, allow_zeros):
+                self._orphaned_clse.discard((arg0, arg1))
+                if constants.CLSE in expected_cmds:
+                    return constants.CLSE, arg0, arg1, b''
+                break
+
+        return None
 
     async def send(self, msg, adb_info):
         """Send a message to the device.
